@@ -514,6 +514,7 @@ func (ex *Exec) assumeLoaded(st *State, v Val) {
 			smtOr(alts...),
 			sx("bvsle", bv64(0), slLen(v.T)), sx("bvsle", slLen(v.T), slCap(v.T)),
 			sx("bvult", slCap(v.T), bv64(1<<48)),
+			sx("bvult", slOff(v.T), "#x8000000000000000"),
 			smtImp(sx("=", slArr(v.T), "nilarr"), sx("=", slCap(v.T), bv64(0))),
 		))
 	}
@@ -532,6 +533,9 @@ func (ex *Exec) convert(st *State, v Val, from, to types.Type) Val {
 	case tbb != nil && tbb.Kind() == types.UnsafePointer:
 		if fb != nil && fb.Info()&types.IsInteger != 0 { // uintptr -> unsafe.Pointer
 			return Val{T: sx("ptr_at", v.T), S: sortRef, Ty: to, P: &Ptr{Kind: pRaw, Base: sx("ptr_at", v.T)}}
+		}
+		if pt, ok := fu.(*types.Pointer); ok && v.Orig == nil {
+			v.Orig = pt.Elem()
 		}
 		v.Ty = to // *T -> unsafe.Pointer keeps the structured pointer
 		return v
